@@ -39,7 +39,7 @@ func (e *clEntry) when() time.Time {
 
 var clDists = []string{"unstable", "experimental", "stable-security", "bookworm-backports", "UNRELEASED", "trusty"}
 var clOptKeys = []string{"urgency", "binary-only", "x-foo", "closes"}
-var clOptVals = []string{"low", "medium", "high", "yes", "emergency", "1"}
+var clOptVals = []string{"low", "medium", "high", "yes", "emergency", "1", "bug=767172", "a=b=c"}
 var monthNames = []string{"Jan", "Feb", "Mar", "Apr", "May", "Jun", "Jul", "Aug", "Sep", "Oct", "Nov", "Dec"}
 var dayNames = []string{"Sun", "Mon", "Tue", "Wed", "Thu", "Fri", "Sat"}
 
@@ -113,6 +113,10 @@ func genChangelogR(t *rt.Tape, tier string, r *rt.Run) ([]*clEntry, []byte) {
 		body.WriteString("\n")
 		e.Body = body.String()
 		e.Who = genPerson(t, "cl.who")
+		if t.Bool(1, 8, "cl.who.dashes") {
+			// the trailer's separator characters inside the maintainer part itself
+			e.Who = "Jean--Luc Picard <jean--luc@example.org>"
+		}
 		e.Y = t.Range(1995, 2038, "cl.y")
 		e.Mo = t.Range(1, 12, "cl.mo")
 		e.D = t.Range(1, 28, "cl.d")
